@@ -190,13 +190,6 @@ func flight4Parse(
 		cfg.WriteKeyLog(keyLogLabel, clientRandom[:], state.MasterSecret)
 	}
 
-	if len(state.SessionID) > 0 {
-		cfg.Log.Tracef("[handshake] save new session: %x", state.SessionID)
-		if err := cfg.SetSession(state.SessionID, state.SessionID, state.MasterSecret); err != nil {
-			return 0, &alert.Alert{Level: alert.Fatal, Description: alert.InternalError}, err
-		}
-	}
-
 	// Now, encrypted packets can be handled
 	if err := conn.HandleQueuedPackets(ctx); err != nil {
 		return 0, &alert.Alert{Level: alert.Fatal, Description: alert.InternalError}, err
@@ -235,7 +228,7 @@ func flight4Parse(
 			}
 		}
 
-		return Flight6, nil, nil
+		return flight4StoreSession(state, cfg)
 	}
 
 	switch cfg.ClientAuth {
@@ -260,6 +253,21 @@ func flight4Parse(
 	if cfg.VerifyConnection != nil {
 		if err := cfg.VerifyConnection(state); err != nil {
 			return 0, &alert.Alert{Level: alert.Fatal, Description: alert.BadCertificate}, err
+		}
+	}
+
+	return flight4StoreSession(state, cfg)
+}
+
+// flight4StoreSession makes the session resumable. It runs only after the
+// client's Finished verified and the client-authentication policy was met, so
+// that an abbreviated handshake can never stand in for a full handshake that
+// would not have completed.
+func flight4StoreSession(state *dtlsstate.State12, cfg *dtlsconfig.HandshakeConfig) (Flight, *alert.Alert, error) {
+	if len(state.SessionID) > 0 {
+		cfg.Log.Tracef("[handshake] save new session: %x", state.SessionID)
+		if err := cfg.SetSession(state.SessionID, state.SessionID, state.MasterSecret); err != nil {
+			return 0, &alert.Alert{Level: alert.Fatal, Description: alert.InternalError}, err
 		}
 	}
 
